@@ -1,5 +1,5 @@
 (* C13 — tree invariants: search order, exact aggregates, heap order, canonical shape. *)
-From GK Require Import Base Order Treap TreapSpec Store StoreSpec StoreRefine Corollaries.
+From GK Require Import Base Order Treap TreapSpec Store StoreSpec StoreRefine Corollaries Codec CodecProofs Disk DiskProofs.
 
 (* at all times: every collection of every reachable state (any history whatsoever in which
    names keep their comparator) is a search tree under its comparator in which every node
@@ -44,3 +44,13 @@ Theorem c13_canonical_depth : forall cmp a b, bst cmp a -> bst cmp b -> heap a -
   elems a = elems b -> NoDup (map iprio (elems a)) -> forall d, depths a d = depths b d.
 Proof. exact Corollaries.depth_canonical. Qed.
 Print Assumptions c13_canonical_depth.
+
+(* ... and as persisted on file: the flushed file passes conforms_v4, which checks on the RECORDS reachable
+   from the last root exact numNodes/numBytes at every node and search order under each collection's comparator *)
+Theorem c13_persisted_invariants : forall cmpid f size cs f' size' cs',
+  Forall (coll_ok f size) cs -> 0 <= size <= blen f -> flush_bytes f size cs = (f', size', cs') ->
+  size' < two63 -> roots_len + blen (enc_json (root_map cs')) < two32 -> blen f' = size' ->
+  Forall (fun nc => NoDup (node_offs (c_tree (snd nc)))) cs ->
+  names_b (tmap cs) = true -> Forall (coll_conf cmpid) cs -> conforms_v4 cmpid f' = true.
+Proof. exact DiskProofs.flush_conforms_nodup. Qed.
+Print Assumptions c13_persisted_invariants.
